@@ -46,7 +46,7 @@ def install_read_seam():
     _SEAMED[0] = True
 
 
-def writer_fn(root, wi, tree, shared_objs, first):
+def writer_fn(root, wi, tree, shared_objs, first, upload=False):
     """Returns a callable performing writer wi's stage + transfer."""
 
     def fn():
@@ -80,7 +80,7 @@ def writer_fn(root, wi, tree, shared_objs, first):
 
         T._log_exception = _rec
         try:
-            staging, _m, obj = build(odb, os.path.join(root, f"ws{wi}"), LFS, "md5")
+            staging, _m, obj = build(odb, os.path.join(root, f"ws{wi}"), LFS, "md5", upload=upload)
             res = transfer(staging, odb, {obj.hash_info}, shallow=False, hardlink=False)
         finally:
             if state is not None:
@@ -108,8 +108,10 @@ def one_schedule(cfg, choices):
         if cfg["mode"] == "threads":
             state = State(root_dir=root, tmp_dir=w.p("tmp"))
             odb = make_odb("local", w.p("odb"), state=state)
-            fns = [writer_fn(root, i, t, {"odb": odb}, cfg.get("first")) for i, t in enumerate(trees)]
-            sched = ThreadSched(fns, choices, shared)
+            fns = [writer_fn(root, i, t, {"odb": odb}, cfg.get("first"), cfg.get("upload", False))
+                   for i, t in enumerate(trees)]
+            fine = [w.p(f"ws{i}") for i in range(len(trees))] if cfg.get("fine") else []
+            sched = ThreadSched(fns, choices, shared, fine=fine)
             try:
                 trace, results = sched.run()
             except HarnessError as e:
@@ -122,7 +124,8 @@ def one_schedule(cfg, choices):
                 state.close()
         else:
             os.makedirs(w.p("odb"), exist_ok=True)
-            fns = [writer_fn(root, i, t, None, cfg.get("first")) for i, t in enumerate(trees)]
+            fns = [writer_fn(root, i, t, None, cfg.get("first"), cfg.get("upload", False))
+                   for i, t in enumerate(trees)]
             sched = ProcSched(fns, choices, shared)
             try:
                 trace, results = sched.run()
@@ -320,6 +323,15 @@ def configs(tier):
             yield {"workload": "three", "mode": mode, "first": None, "caps": False}, (2 if mode == "threads" else 1)
     else:
         yield {"workload": "three", "mode": "threads", "first": None, "caps": False}, 1
+    # upload staging: files are first uploaded to temporary names inside the shared store
+    for mode in ("threads", "procs"):
+        yield {"workload": "overlap", "mode": mode, "first": None, "caps": False, "upload": True}, \
+            (2 if tier == "thorough" and mode == "threads" else 1)
+    # fine-grained pass: events on the writers' private workspaces are scheduling points too, so that the
+    # staging phases (which touch only memory and private files) interleave as well
+    for name in wl:
+        yield {"workload": name, "mode": "threads", "first": None, "caps": False, "fine": True}, \
+            (2 if tier == "thorough" else 1)
 
 
 def run(ctx):
@@ -333,7 +345,8 @@ def run(ctx):
     ctx.assumptions = [
         "between scheduling points exactly one writer runs; preemption inside C extensions (sqlite, hashlib) is "
         "not modelled and trusted to their own locking",
-        "events on a writer's private workspace are not points (they commute with everything)",
+        "events on a writer's private workspace are not points (they commute with everything) except in the "
+        "fine-grained pass, where they are, so that the memory-only staging phases interleave too",
         "in-memory shared state (ObjectDB._dirs, staging url cache, memfs) is only interleaved at these points",
     ]
     ctx.require("schedules", "preempted_schedules", "adjacent_conflicts")
